@@ -14,6 +14,10 @@ from . import common
 from .common import MachineryError
 
 
+KEYDOC = {"str": "k<n> -> string \"k<n>\"", "int": "k<n> -> int n",
+          "mixed": "k1 -> nil, k2 -> int 0, k3 -> \"\", k4 -> false, k5 -> float64 0, k6 -> struct{}, k7 -> [1]int{0}, k8 -> int8 0, others -> struct keys"}
+
+
 def validate_traces(ctx, files, spec="Trace_LRU", workers=8):
     """Run the trace spec over each file; returns list of (file, reject_line or None, events)."""
     def one(f):
@@ -113,40 +117,43 @@ def run(ctx):
         raise MachineryError("Gen_LRU emitted only %d edges" % len(edges))
     ep = ctx.path("edges.ndjson")
     common.write_ndjson(ep, edges)
-    rp = ctx.path("edges.out.ndjson")
-    ctx.run_vh(vh, ["lru-edges"], stdin_path=ep, stdout_path=rp)
     summary = None
     nontrivial_edges = sum(1 for e in edges if e["cb"] or e["from"]["dump"] != e["to"]["dump"])
-    for r in common.read_ndjson(rp):
-        if r["kind"] == "summary":
-            summary = r
-        elif r["kind"] == "drift":
-            ctx.note("DRIFT delete-counter differs from mechanism spec: %s" % json.dumps(r)[:300])
-        else:
-            e = r["edge"]
-            sig = dict(src="edge", op=e["op"], what=",".join(r.get("what", [r["kind"]])),
-                       key_live=any(p[0] == e["k"] for p in e["from"]["dump"]))
-            ctx.candidate(sig, "LRU transition differs from model: %s from %s expected -> %s cb=%s res=%s; real: %s" % (
-                (e["op"], e["k"], e["v"]), e["from"], e["to"], e["cb"], e["res"], json.dumps(r.get("got", r.get("err")))),
-                dict(kind="edge", edge=e))
-    if not summary or summary["edges"] != len(edges):
-        raise MachineryError("edge replay incomplete")
+    codecs = ["str", "mixed", "int"]
+    for codec in codecs:
+        rp = ctx.path("edges.out.%s.ndjson" % codec)
+        ctx.run_vh(vh, ["lru-edges"], stdin_path=ep, stdout_path=rp, extra_env={"VERIF_LRU_KEYS": codec})
+        summary = None
+        for r in common.read_ndjson(rp):
+            if r["kind"] == "summary":
+                summary = r
+            elif r["kind"] == "drift":
+                ctx.note("DRIFT delete-counter differs from mechanism spec: %s" % json.dumps(r)[:300])
+            else:
+                e = r["edge"]
+                sig = dict(src="edge", op=e["op"], what=",".join(r.get("what", [r["kind"]])), keys=codec,
+                           key_live=any(p[0] == e["k"] for p in e["from"]["dump"]))
+                ctx.candidate(sig, "LRU transition differs from model (key codec %s: %s): %s from %s expected -> %s cb=%s res=%s; real: %s" % (
+                    codec, KEYDOC[codec], (e["op"], e["k"], e["v"]), e["from"], e["to"], e["cb"], e["res"], json.dumps(r.get("got", r.get("err")))),
+                    dict(kind="edge", edge=e, codec=codec))
+        if not summary or summary["edges"] != len(edges):
+            raise MachineryError("edge replay incomplete (codec %s)" % codec)
 
     # 3. code -> model
     shards = 8
     pre = ctx.path("lrutrace")
     if quick:
         ctx.run_vh(vh, ["lru-record", "-mode", "exh", "-keys", "3", "-vals", "2", "-caps", "0,1,2,3", "-len", "3",
-                        "-shards", str(shards), "-out", pre + "-exh"])
+                        "-shards", str(shards), "-out", pre + "-exh"], extra_env={"VERIF_LRU_KEYS": "mixed"})
         ctx.run_vh(vh, ["lru-record", "-mode", "rand", "-keys", "12", "-vals", "3", "-caps", "0,1,2,3,4,5,8", "-len", "120",
-                        "-n", "240", "-shards", str(shards), "-out", pre + "-rand"])
+                        "-n", "240", "-shards", str(shards), "-out", pre + "-rand"], extra_env={"VERIF_LRU_KEYS": codecs[ctx.seed % 3]})
     else:
         ctx.run_vh(vh, ["lru-record", "-mode", "exh", "-keys", "3", "-vals", "2", "-caps", "0,1,2,3,4", "-len", "4",
-                        "-shards", str(shards), "-out", pre + "-exh"])
+                        "-shards", str(shards), "-out", pre + "-exh"], extra_env={"VERIF_LRU_KEYS": "mixed"})
         ctx.run_vh(vh, ["lru-record", "-mode", "exh", "-keys", "2", "-vals", "2", "-caps", "0,1,2", "-len", "5",
                         "-shards", str(shards), "-out", pre + "-exh5"])
         ctx.run_vh(vh, ["lru-record", "-mode", "rand", "-keys", "20", "-vals", "3", "-caps", "0,1,2,3,4,5,8,16", "-len", "600",
-                        "-n", "800", "-shards", str(shards), "-out", pre + "-rand"])
+                        "-n", "800", "-shards", str(shards), "-out", pre + "-rand"], extra_env={"VERIF_LRU_KEYS": codecs[ctx.seed % 3]})
     files = sorted(os.path.join(ctx.work, f) for f in os.listdir(ctx.work) if f.startswith("lrutrace") and f.endswith(".ndjson"))
     files = [f for f in files if os.path.getsize(f) > 0]
     results = validate_traces(ctx, files, workers=8)
@@ -197,9 +204,9 @@ def run(ctx):
         states=ctx.states, transitions=ctx.transitions,
         traces_validated_against_impl=traces,
         trace_events=events,
-        edges_replayed=len(edges),
+        edges_replayed=len(edges) * len(codecs), key_codecs=KEYDOC,
         edges_nontrivial=nontrivial_edges,
-        evaluations=len(edges) + events,
+        evaluations=len(edges) * len(codecs) + events,
         distinct_nontrivial=nontrivial_edges,
         rule="edges: every transition of the complete LRU graph (3 keys x 2 values x cap 0..3), non-trivial = changes state or fires a callback; "
              "traces: every op sequence of the stated length + seeded random long sequences",
@@ -223,7 +230,7 @@ def replay(ctx, vh):
     if r["kind"] == "edge":
         ep = ctx.path("edge.ndjson")
         common.write_ndjson(ep, [r["edge"]])
-        out = ctx.run_vh(vh, ["lru-edges"], stdin_path=ep).stdout
+        out = ctx.run_vh(vh, ["lru-edges"], stdin_path=ep, extra_env={"VERIF_LRU_KEYS": r.get("codec", "str")}).stdout
         for line in out.splitlines():
             rec = json.loads(line)
             if rec["kind"] in ("mismatch", "unreachable"):
